@@ -51,10 +51,11 @@ def gen_case(rng, want_empty_title=None):
         pre = None
         r = rng.random()
         name = None
-        if r < 0.25 and not quote:
+        # also inside a block quote: there the heading becomes a rubric, which then carries the id
+        if r < 0.25:
             name = rng.choice(names_pool)
             pre = f"({name})="
-        elif r < 0.35 and not quote:
+        elif r < 0.35 or (quote and r < 0.6):
             name = rng.choice([n for n in names_pool if " " not in n] or ["x1"])
             pre = "{#%s}" % name
         blk = ([pre] if pre else []) + [("#" * level + " " + written).rstrip(), "", m + " text"]
@@ -67,12 +68,14 @@ def gen_case(rng, want_empty_title=None):
 
     def add_target():
         name = rng.choice(names_pool)
-        kind = rng.choice(["t_block", "t_block", "a_block", "a_span", "d_adm", "d_note", "a_link"])
+        kind = rng.choice(["t_block", "t_block", "a_block", "a_span", "d_adm", "d_note", "a_link", "t_dl", "t_fl"])
         quote = rng.random() < 0.25 and kind in ("t_block", "a_span")
         m = marker()
         title = None
         if kind in ("a_block", "a_span", "a_link") and " " in name:
             kind = "t_block"
+        if kind == "t_fl" and not lines:
+            kind = "t_block"     # a field list that opens a document is docinfo metadata
         if kind == "t_block":
             emit([f"({name})=", f"{m} para"], quote)
             tag = "paragraph"
@@ -82,6 +85,16 @@ def gen_case(rng, want_empty_title=None):
         elif kind == "a_span":
             emit([f"see [{m}]{{#{name}}} here"], quote)
             tag = "inline"
+        elif kind == "t_dl":
+            # a target before a definition list: the list carries the name, its title is the first term
+            title = f"Term {m}"
+            emit([f"({name})=", title, ": definition body"])
+            tag = "definition_list"
+        elif kind == "t_fl":
+            title = f"fld{m}"
+            emit([f"intro {m}"])          # directly after the document title a field list would be docinfo
+            emit([f"({name})=", f":{title}: field body"])
+            tag = "field_list"
         elif kind == "a_link":
             # an attribute id on an external link: the reference node carries the id
             emit([f"see [{m}](https://example.org/{m}){{#{name}}} there"], quote)
